@@ -316,8 +316,21 @@ class Lower:
         if self.idx.is_polymorphic(rec): self.tag_of(cname)
         if self.idx.is_polymorphic(rec) and not has_poly_base:
             lines.append('  int vp_tag;')
+        cap_inits = None
+        if rec.get('definitionData', {}).get('isLambda'):
+            le = self.idx.parent.get(rec['id'])
+            if le is not None and le.get('kind') == 'LambdaExpr': cap_inits = [c for c in le['inner'][1:] if c.get('kind') != 'CompoundStmt']
         for fk, f in enumerate(self.idx.fields(rec)):
-            t = self.tinfo(f['type'])
+            fty = f['type']
+            if cap_inits is not None and fk < len(cap_inits) and 'decltype(' in qt(fty) and not fty.get('desugaredQualType'):
+                # capture of a variable declared `auto x = ...`: clang spells the field type as decltype(...); take the variable's type
+                src = cap_inits[fk]
+                while src.get('kind') != 'DeclRefExpr' and len(src.get('inner', [])) == 1: src = src['inner'][0]
+                vd = self.idx.by_id.get((src.get('referencedDecl') or {}).get('id')) if src.get('kind') == 'DeclRefExpr' else None
+                if vd is not None and vd.get('type'):
+                    base = qt(vd['type'])
+                    fty = {'qualType': base + (' &' if qt(f['type']).rstrip().endswith('&') else '')}
+            t = self.tinfo(fty)
             nm = f.get('name') or ('_c%d' % fk)      # unnamed fields: lambda captures, by position
             if t[0] == 'array':
                 lines.append('  %s %s[%d];' % (self.ctype(t[1]), nm, t[2]))
